@@ -270,7 +270,15 @@ def case_reduce(ctx, p):
         ctx.in_reduce[m] = True
         try:
             arg = np.array(c) if p["kind"] == "orthogonal" or (p["kind"] == "integer" and c[0] % 2) else (tuple(c) if p["kind"] == "integer" and c[1] % 2 else c)
-            mod.reduce_cell(arg)
+            # the default search range, left out / passed by position / passed by keyword
+            form = int(c[0] * 1e6) % 3
+            if form == 0:
+                mod.reduce_cell(arg)
+            elif form == 1:
+                mod.reduce_cell(arg, 3)
+            else:
+                mod.reduce_cell(arg, uvw=3)
+            mon.config("call form:%s" % ("reduce_cell(cell)", "reduce_cell(cell, 3)", "reduce_cell(cell, uvw=3)")[form])
         except Exception as exc:
             mon.check("workload:%s.reduce_cell raises on a valid cell" % m, False, observed=repr(exc), detail=c)
         finally:
